@@ -455,8 +455,8 @@ class OpsMixin:
             return r
         # identity-like equality of model objects
         if o in ("==", "!="):
-            if isinstance(a, (ClassVal, FuncVal, ModuleVal, Instance, EnumVal)) or \
-               isinstance(b, (ClassVal, FuncVal, ModuleVal, Instance, EnumVal)):
+            if isinstance(a, (ClassVal, FuncVal, ModuleVal, Instance, EnumVal, BoundMethod)) or \
+               isinstance(b, (ClassVal, FuncVal, ModuleVal, Instance, EnumVal, BoundMethod)):
                 eq = a is b
                 return eq if o == "==" else not eq
             # dynamic vs anything: undetermined, with refinement on static rhs
@@ -695,6 +695,15 @@ class OpsMixin:
             b = int(b)
         if isinstance(a, num) and isinstance(b, num):
             if op == "/":
+                if isinstance(a, int) and isinstance(b, int):
+                    if b == 0:
+                        raise PyRaise(Instance(self.bclasses["ZeroDivisionError"], ("division by zero",)), node, frame.where(node))
+                    return a / b
+                if isinstance(b, int) and b > 0 and b & (b - 1) == 0 and isinstance(a, Sym) and a.bits is not None:
+                    top = max([i for i, x in enumerate(a.bits) if x != 0], default=-1)
+                    if top < 53:
+                        return SymFloat(sym_binop(">>", a, b.bit_length() - 1))
+                    return Unknown("true division of a %d-bit value (a float carries 53 bits)" % (top + 1))
                 return Unknown("true division")
             return sym_binop(op, a, b)
         if isinstance(a, float) or isinstance(b, float):
